@@ -394,7 +394,7 @@ func runC20(s *kernel.Sim) {
 	s.Go("director", func() {
 		defer func() { done = true }()
 		for i := 0; i < nops && !s.Violated(); i++ {
-			switch op := s.TaskChoose("director", "op", 10); {
+			switch op := s.TaskChoose("director", "op", 11); {
 			case op <= 2: // Start (fresh, again while running, or with the pool failing at connect)
 				failConnect := !running && s.TaskChoose("director", "failconnect", 4) == 0
 				if failConnect {
@@ -494,7 +494,7 @@ func runC20(s *kernel.Sim) {
 					s.Violate("stop", "keep-alives continue after Stop", "#%d: %d keep-alives after Stop", i, n)
 					return
 				}
-			case op == 8: // the pool fails the next keep-alive: the loop ends, Wait returns the error, a new Start works
+			case op == 8 && running: // the pool fails the next keep-alive: the loop ends, Wait returns the error, a new Start works
 				if !running {
 					continue
 				}
@@ -524,6 +524,52 @@ func runC20(s *kernel.Sim) {
 					s.Violate("stop", "keep-alives continue after the loop ended with an error", "#%d: %d", i, n)
 					return
 				}
+			case op == 9 && !running: // two callers start the agent at the same time
+				u0 := updates()
+				c0 := 0
+				for _, c := range sp.CallsSince(0) {
+					if c.Method == "Connect" && c.Err == nil {
+						c0++
+					}
+				}
+				errs := make(chan error, 2)
+				for k := 0; k < 2; k++ {
+					waits++
+					s.GoBG(fmt.Sprintf("starter%d", waits), func() { errs <- a.Start(sp) })
+				}
+				for i := 0; i < 200 && len(errs) < 2; i++ {
+					s.Sleep("director", time.Millisecond)
+				}
+				settle()
+				if len(errs) < 2 {
+					s.Violate("start_twice", "concurrent Start calls do not return", "only %d of 2 returned", len(errs))
+					return
+				}
+				e1, e2 := <-errs, <-errs
+				s.TaskLog("director", "#%d two concurrent Starts -> %v / %v", i, e1, e2)
+				ok, refused := 0, 0
+				for _, e := range []error{e1, e2} {
+					if e == nil {
+						ok++
+					} else if e == agent.ErrAlreadyStarted {
+						refused++
+					}
+				}
+				c1 := 0
+				for _, c := range sp.CallsSince(0) {
+					if c.Method == "Connect" && c.Err == nil {
+						c1++
+					}
+				}
+				if ok != 1 || refused != 1 {
+					s.Violate("start_twice", "two overlapping Start calls are not resolved to one start and one refusal", "#%d: results %v / %v; registrations with the pool: %d; keep-alives: %d", i, e1, e2, c1-c0, updates()-u0)
+					return
+				}
+				if c1-c0 != 1 || updates()-u0 != 1 {
+					s.Violate("start_twice", "overlapping Start calls register or update more than once", "#%d: %d registrations, %d keep-alives", i, c1-c0, updates()-u0)
+					return
+				}
+				running = true
 			default: // forced update from the caller's task
 				if !running {
 					continue
